@@ -60,12 +60,13 @@ def run(F, rep):
 
     # ------------------------------------------------------------------ P
     rep.rule('C20.P1', 'inside the marking loop every user-supplied dependency is translated by internalVariable(dependency)->mVariable (its primary variable) before it is stored')
-    loops = [l for l in am.walk() if l.get('k') == 'RangeFor' and render(role(l, 'range')).endswith('externalVariable->dependencies()')]
+    from engines import element_visits
+    loops = list(element_visits(am, 'externalVariable->dependencies()'))
     if not loops:
         raise AnalysisBroken('marking loop over externalVariable->dependencies() vanished')
-    lv = loops[0]['c'][0]
-    for x in walk(role(loops[0], 'body')):
-        if x.get('k') == 'Ref' and x.get('d') == lv['d']:
+    lv_d, lv_body, _site = loops[0]
+    for x in walk(lv_body):
+        if x.get('k') == 'Ref' and x.get('d') == lv_d:
             p = am.parent(x)
             while p is not None and p.get('k') in ('Construct', 'Cast'):
                 p = am.parent(p)
